@@ -442,7 +442,7 @@ def gen_blobs(ctx, count, prefix="b"):
     cases = []
     for i in range(count):
         exact = i % 2 == 0
-        n = rng.choice(range(12, 29))
+        n = rng.choice(range(16, 29))
         it = rng.choice([2, 3, 4]) if not exact else rng.choice([2, 3])
         d = rng.choice(["x", "y"])
         amp = rng.choice([0.5, 1.5, 3.0])
